@@ -57,7 +57,8 @@ AX = ('x', 'y', 'z')
 def tasks(tier):
     # ghosts are built with ParticleArray.extract_particles / append_parray
     # and removed with remove_tagged_particles (C06): re-proved here
-    return ['wrap', 'helpers', 'periodic', 'mirror', 'update', 'canary',
+    return ['wrap', 'helpers', 'periodic', 'mirror', 'update', 'construct',
+            'canary',
             'dep:C06:extract', 'dep:C06:append', 'dep:C06:tagged',
             'dep:C06:remove']
 
@@ -86,6 +87,8 @@ def run_task(task, ctx):
         return task_compose(ctx, repo, m, 'mirror')
     if task == 'update':
         return task_update(ctx, repo, m)
+    if task == 'construct':
+        return task_construct(ctx, repo, m)
     if task == 'canary':
         x = z3.Real('cx')
         ctx.canary('canary.must_fail', Obligation('c', [x > 0], x > 1))
@@ -94,6 +97,243 @@ def run_task(task, ctx):
                                 failing=[], replay=None, info=''))
         return
     raise ValueError(task)
+
+
+# ---------------------------------------------------------------- construct
+CTOR_ARGS = ['xmin', 'xmax', 'ymin', 'ymax', 'zmin', 'zmax', 'periodic_in_x',
+             'periodic_in_y', 'periodic_in_z', 'n_layers', 'props',
+             'mirror_in_x', 'mirror_in_y', 'mirror_in_z']
+
+
+def _ctor_values():
+    v = {}
+    for a in CTOR_ARGS:
+        if a.startswith(('periodic', 'mirror')):
+            v[a] = z3.Bool('arg_' + a)
+        elif a == 'props':
+            v[a] = ('props-object',)
+        else:
+            v[a] = z3.Real('arg_' + a)
+    return v
+
+
+def task_construct(ctx, repo, m):
+    """What the user gives the DomainManager facade is what the ghost
+    builder uses: DomainManager.__init__ forwards every argument under its
+    own name to the manager it creates, CPUDomainManager.__init__ forwards
+    every one to DomainManagerBase.__init__, which stores each in the
+    attribute of the same name (and translate = max - min, is_periodic /
+    is_mirror = any axis); the facade's methods forward to the manager."""
+    W = m.path
+    obs = []
+    vals = _ctor_values()
+
+    def same(a, b):
+        return a is b or S.same(a, b)
+    # (a) facade
+    fn = m.methods('DomainManager')['__init__']
+    made = []
+
+    def ctor(e, s_, a, k_, nn):
+        made.append((list(a), dict(k_)))
+        return SymObject(None, {}, 'manager')
+    obj = SymObject('DomainManager', {}, 'self')
+    obj.module = m
+    ex = Executor(repo, m, qualname='DomainManager.__init__', merge=False,
+                  externals={'CPUDomainManager': ctor,
+                             'get_backend': lambda e, s_, a, k_, nn: 'cython'})
+    args = dict(vals)
+    args.update(self=obj, backend=None)
+    try:
+        outs = ex.exec_function(fn, args, State(pc=[]))
+    except VCError as e:
+        ctx.outside('construct.facade', str(e))
+        return
+    ctx.function(m, fn, 'DomainManager.__init__', ex.dropped)
+    ok = len(made) >= 1 and len(outs) >= 1
+    why = '%d constructor calls' % len(made)
+    for a_, k_ in made:
+        if a_:
+            ok = False
+            why = 'positional arguments %r' % (a_,)
+        for nm in CTOR_ARGS:
+            if nm not in k_ or not same(k_[nm], vals[nm]):
+                ok = False
+                why = 'argument %s arrives as %r' % (nm, k_.get(nm, '<absent: '
+                                                                'default>'))
+        if k_.get('backend') != 'cython':
+            ok = False
+            why = 'backend %r' % (k_.get('backend'),)
+    for o in outs:
+        mg = o.state.env['self'].attrs.get('manager')
+        if not (isinstance(mg, SymObject) and mg.name == 'manager'):
+            ok = False
+            why = 'self.manager is %r' % (mg,)
+    obs.append(Obligation('facade.forwards_every_argument', [],
+                          z3.BoolVal(bool(ok)), W, extra=dict(why=why)))
+    # facade methods
+    for meth, nargs in (('set_pa_wrappers', 1), ('set_cell_size', 1),
+                        ('set_in_parallel', 1), ('set_radius_scale', 1),
+                        ('compute_cell_size_for_binning', 0), ('update', 0)):
+        fn_ = m.methods('DomainManager').get(meth)
+        if fn_ is None:
+            obs.append(Obligation('facade.%s.exists' % meth, [],
+                                  z3.BoolVal(False), W))
+            continue
+        calls = []
+        mg = SymObject(None, {meth: Native(
+            lambda e, s_, a, k_, nn: calls.append((list(a), dict(k_))))},
+            'manager')
+        o_ = SymObject('DomainManager', dict(manager=mg), 'self')
+        o_.module = m
+        ex = Executor(repo, m, qualname='DomainManager.' + meth, merge=False)
+        params = [p.arg for p in fn_.args.args][1:]
+        av = {p_: ('arg', p_) for p_ in params}
+        try:
+            outs = ex.exec_function(fn_, dict(self=o_, **av), State(pc=[]))
+            okm = len(calls) == 1 and len(outs) == 1 and \
+                calls[0][0] == [av[p_] for p_ in params] and not calls[0][1]
+        except VCError as e:
+            okm = False
+        ctx.function(m, fn_, 'DomainManager.' + meth)
+        obs.append(Obligation('facade.%s.forwards' % meth, [],
+                              z3.BoolVal(bool(okm)), W))
+    # (b) CPUDomainManager.__init__ -> DomainManagerBase.__init__
+    fn = m.methods('CPUDomainManager')['__init__']
+    got = []
+
+    def base_init(e, s_, a, k_, nn):
+        got.append((list(a), dict(k_)))
+    obj = SymObject('CPUDomainManager', {}, 'self')
+    obj.module = m
+    from pyvc.symexec import CalleeContract
+    ex = Executor(repo, m, qualname='CPUDomainManager.__init__', merge=False,
+                  contracts={'DomainManagerBase.__init__':
+                             CalleeContract(base_init),
+                             # an unbound call Base.__init__(self, ...) is
+                             # looked up by its bare name
+                             '__init__': CalleeContract(base_init)})
+    ex.spec_env['np'] = SymObject(None, dict(finfo=Native(
+        lambda e, s_, a, k_, nn: SymObject(None, dict(max=z3.Real('dmax')),
+                                           'finfo'))), 'np')
+    args = dict(vals)
+    args.update(self=obj, backend=None)
+    try:
+        outs = ex.exec_function(fn, args, State(pc=[]))
+        ok = len(got) == 1 and len(outs) == 1
+        why = '%d base constructor calls' % len(got)
+        for a_, k_ in got:
+            pos = [x for x in a_ if not (isinstance(x, SymObject) and
+                                         x.name == 'self')]
+            if pos:
+                ok, why = False, 'positional arguments'
+            for nm in CTOR_ARGS:
+                if nm not in k_ or not same(k_[nm], vals[nm]):
+                    ok = False
+                    why = 'argument %s arrives as %r' % (
+                        nm, k_.get(nm, '<absent: default>'))
+    except VCError as e:
+        ok, why = False, 'outside subset: %s' % e
+    ctx.function(m, fn, 'CPUDomainManager.__init__', ex.dropped)
+    obs.append(Obligation('cpu_manager.forwards_every_argument', [],
+                          z3.BoolVal(bool(ok)), W, extra=dict(why=why)))
+    # (c) DomainManagerBase.__init__ stores every argument
+    fn = m.methods('DomainManagerBase')['__init__']
+    obj = SymObject('DomainManagerBase', {}, 'self')
+    obj.module = m
+    ex = Executor(repo, m, qualname='DomainManagerBase.__init__', merge=False,
+                  inline={'DomainManagerBase._check_limits'})
+    args = dict(vals)
+    args.update(self=obj)
+    pre = [vals['xmax'] >= vals['xmin'], vals['ymax'] >= vals['ymin'],
+           vals['zmax'] >= vals['zmin']]
+    try:
+        outs = ex.exec_function(fn, args, State(pc=list(pre)))
+    except VCError as e:
+        ctx.outside('construct.base', str(e))
+        return
+    ctx.function(m, fn, 'DomainManagerBase.__init__', ex.dropped)
+    rets = [o for o in outs if o.kind == 'return']
+    if not rets:
+        obs.append(Obligation('base.returns', [], z3.BoolVal(False), W))
+    for i_, o in enumerate(rets):
+        at = o.state.env['self'].attrs
+        for nm in CTOR_ARGS:
+            v = at.get(nm, None)
+            if nm == 'props':
+                g = z3.BoolVal(v is vals[nm])
+            elif v is None:
+                g = z3.BoolVal(False)
+            else:
+                g = S.to_z3(S.cmp('==', v, vals[nm]))
+            obs.append(Obligation('base.%d.stores.%s' % (i_, nm), o.pc, g, W))
+        for a in AX:
+            v = at.get(a + 'translate')
+            obs.append(Obligation(
+                'base.%d.translate.%s' % (i_, a), o.pc,
+                S.to_z3(S.cmp('==', v, vals[a + 'max'] - vals[a + 'min']))
+                if v is not None else z3.BoolVal(False), W))
+        for kind in ('periodic', 'mirror'):
+            v = at.get('is_' + kind)
+            want = z3.Or(*[vals['%s_in_%s' % (kind, a)] for a in AX])
+            obs.append(Obligation(
+                'base.%d.is_%s' % (i_, kind), o.pc,
+                (S.to_z3(S.to_bool(v)) == want) if v is not None
+                else z3.BoolVal(False), W))
+    for o_ in obs:
+        o_.extra = dict(o_.extra or {}, backends=['z3'])
+    ctx.prove('construct.arguments_reach_the_ghost_builder', obs,
+              use_nf=False, replay=replay_layers)
+
+
+REPLAY_LAYERS = r"""
+import json, sys
+d = json.load(sys.stdin)
+sys.path.insert(0, d['built'])
+import numpy as np
+from pysph.base.utils import get_particle_array
+from pysph.base.nnps import DomainManager, LinkedListNNPS
+bad = None
+for nl in (1.0, 2.0, 3.0):
+    h = 0.05
+    x, y = np.mgrid[0.025:1:0.05, 0.025:1:0.05]
+    pa = get_particle_array(name='f', x=x.ravel(), y=y.ravel(), h=h)
+    dom = DomainManager(xmin=0., xmax=1., ymin=0., ymax=1., periodic_in_x=True, periodic_in_y=True, n_layers=nl)
+    nn = LinkedListNNPS(dim=2, particles=[pa], domain=dom, radius_scale=2.0)
+    nn.update()
+    L = nl * 2.0 * h
+    xs, ys = x.ravel(), y.ravel()
+    want = 0
+    for sx in (-1, 0, 1):
+        for sy in (-1, 0, 1):
+            if sx == 0 and sy == 0: continue
+            okx = np.ones_like(xs, bool) if sx == 0 else ((xs - 0.0) <= L if sx == 1 else (1.0 - xs) <= L)
+            oky = np.ones_like(ys, bool) if sy == 0 else ((ys - 0.0) <= L if sy == 1 else (1.0 - ys) <= L)
+            want += int(np.sum(okx & oky))
+    got = int(pa.get_number_of_particles() - pa.num_real_particles)
+    if dom.manager.n_layers != nl or got != want:
+        bad = dict(n_layers_given=nl, n_layers_of_manager=float(dom.manager.n_layers), ghosts=got, expected=want); break
+print(json.dumps(dict(bad=bad)))
+"""
+
+
+def replay_layers(model, ob):
+    import os
+    if os.environ.get('PYVC_NO_BUILD_REPLAY'):
+        return dict(reproduced=False, note='build replay disabled')
+    try:
+        dst, msg = native.shared_build()
+        if dst is None:
+            return dict(reproduced=False, note=msg)
+        r = native.run_venv(REPLAY_LAYERS, dict(built=dst), timeout=900,
+                            cwd='/tmp')
+        if r['bad']:
+            return dict(reproduced=True, how='extensions built from the '
+                        'working tree; DomainManager(n_layers=1,2,3) on a '
+                        'doubly periodic 20x20 box', **r['bad'])
+        return dict(reproduced=False)
+    except Exception as e:
+        return dict(reproduced=False, note=str(e)[-300:])
 
 
 def loops_over(fn, what):
@@ -192,6 +432,26 @@ if bad is None:
     want = sorted([(0.02, 0.03), (1.02, 0.03), (0.02, -0.03), (1.02, -0.03)])
     if pts != want:
         bad = dict(case='periodic x + mirror y corner', observed=pts, expected=want)
+if bad is None:
+    # particles exactly on the inner boundary of a ghost layer (closed layers:
+    # distance <= n_layers*cell_size, all numbers exact in binary)
+    P = [(0.125, 0.25), (0.875, 0.75), (0.25, 0.5), (0.75, 0.125), (0.5, 0.5), (0.25, 0.25), (0.75, 0.75), (0.25, 0.75)]
+    pa = get_particle_array(name='a', x=[p[0] for p in P], y=[p[1] for p in P], h=0.0625)
+    dm = DomainManager(xmin=0, xmax=1, ymin=0, ymax=1, periodic_in_x=True, periodic_in_y=True, n_layers=2)
+    nn = LinkedListNNPS(dim=2, particles=[pa], domain=dm, radius_scale=2.0)
+    L = 0.25
+    want = []
+    for (px, py) in P:
+        for sx in (-1, 0, 1):
+            for sy in (-1, 0, 1):
+                if sx == 0 and sy == 0: continue
+                okx = sx == 0 or (sx == 1 and px - 0.0 <= L) or (sx == -1 and 1.0 - px <= L)
+                oky = sy == 0 or (sy == 1 and py - 0.0 <= L) or (sy == -1 and 1.0 - py <= L)
+                if okx and oky: want.append((px + sx, py + sy))
+    tg = pa.get('tag', only_real_particles=False)
+    got = sorted((float(a_), float(b_)) for a_, b_, t_ in zip(pa.get('x', only_real_particles=False), pa.get('y', only_real_particles=False), tg) if t_ != 0)
+    if got != sorted(want):
+        bad = dict(case='periodic x+y, particles exactly on the layer boundary', missing=sorted(set(want) - set(got))[:6], extra=sorted(set(got) - set(want))[:6])
 print(json.dumps(dict(bad=bad)))
 '''
 
